@@ -1,0 +1,34 @@
+//go:build verif
+
+package litestream
+
+import (
+	"context"
+	"io"
+	"log/slog"
+	"os"
+
+	"github.com/superfly/ltx"
+)
+
+// Verification hook (C17, /verif): entry points to the unexported page writers of
+// DB.sync so that they can be run on sparse files crossing the 1 GiB lock page.
+// Add-only; compiled only with -tags verif.
+
+func verifLockPageDB(dbFile *os.File, pageSize int) *DB {
+	return &DB{
+		f:        dbFile,
+		pageSize: pageSize,
+		Logger:   slog.New(slog.NewTextHandler(io.Discard, &slog.HandlerOptions{Level: slog.LevelError + 10})),
+	}
+}
+
+// VerifWriteLTXFromDB runs DB.writeLTXFromDB with dbFile as the database file.
+func VerifWriteLTXFromDB(ctx context.Context, enc *ltx.Encoder, dbFile, walFile *os.File, pageSize int, commit uint32, pageMap map[uint32]int64) error {
+	return verifLockPageDB(dbFile, pageSize).writeLTXFromDB(ctx, enc, walFile, commit, pageMap)
+}
+
+// VerifWriteLTXFromWAL runs DB.writeLTXFromWAL with dbFile as the database file.
+func VerifWriteLTXFromWAL(ctx context.Context, enc *ltx.Encoder, dbFile, walFile *os.File, pageSize int, prevCommit, commit uint32, pageMap map[uint32]int64) error {
+	return verifLockPageDB(dbFile, pageSize).writeLTXFromWAL(ctx, enc, walFile, prevCommit, commit, pageMap)
+}
